@@ -32,12 +32,15 @@ WEIGHTS = {"undo": 3, "redo": 3, "paint": 5, "swap": 2.5}
 
 
 def plan(tier, seed):
-    return common.session_plan(PROP, tier, seed, quick=2000, thorough=30000)
+    # + the repository's own test-suite, unedited, as one more workload under the same monitor
+    return common.session_plan(PROP, tier, seed, quick=2000, thorough=30000) + [common.pytest_spec()]
 
 
 def run_shard(spec):
+    if spec.get("kind") == "pytest":
+        return common.run_pytest_shard(spec, PROP)
     return common.run_sessions(spec, PROP, make_monitors, cfg_fn, nsteps=(15, 35),
-                               weights=WEIGHTS, refusal_rate=1.5)
+                               weights=WEIGHTS, refusal_rate=1.5, history_share=0.25)
 
 
 def floors(tier):
@@ -51,4 +54,6 @@ def floors(tier):
 
 
 def replay(doc):
+    if doc.get("kind") == "pytest":
+        return common.replay_pytest(doc, PROP)
     return common.replay_sessions(doc, make_monitors)
